@@ -3,7 +3,7 @@ CONSTANTS
   OORD <- c_OORD
   KORD <- c_KORD
   GENVALS <- c_GENVALS
-  DEVS <- c_DEVS_code
+  DEVS <- c_DEVS_guard
   DECI = 0
   PREC = 1
   AMOUNTS = {1}
@@ -17,6 +17,7 @@ CONSTANTS
   MAXREC = 2
   NOOPBUDGET = 99
   VSTAKERS = {"s1", "v"}
+  PATHS = {"keeper", "pc"}
   NONEMPTY = FALSE
   BLOCKW = 1
 VIEW View
